@@ -158,7 +158,11 @@ func (m *Machine) callSSA(th *Thread, fn *ssa.Function, args []Value, env []Valu
 	}
 	m.callDepth++
 	if m.callDepth > m.P.Cfg.MaxCallDepth {
-		m.endPath("limit", fmt.Sprintf("call depth limit %d exceeded in %s", m.P.Cfg.MaxCallDepth, fn))
+		st := m.stack()
+		if len(st) > 1500 {
+			st = st[:1500]
+		}
+		m.endPath("limit", fmt.Sprintf("call depth limit %d exceeded in %s%s", m.P.Cfg.MaxCallDepth, fn, st))
 	}
 	defer func() { m.callDepth-- }()
 	m.funcs[fn] = true
@@ -347,8 +351,8 @@ func (m *Machine) visit(fr *Frame, instr ssa.Instruction) cont {
 		}
 		if s.Arr == nil {
 			fr.env[instr] = nilPtr
-		} else if s.Off == 0 && len(s.Arr.V.(*ArrayV).E) == n {
-			fr.env[instr] = &Ptr{Obj: s.Arr}
+		} else if s.Off == 0 && len(s.backing().E) == n {
+			fr.env[instr] = &Ptr{Obj: s.Arr, Path: s.Base}
 		} else {
 			panic(m.unsupported("SliceToArrayPointer of a sub-slice"))
 		}
@@ -417,9 +421,12 @@ func (m *Machine) visit(fr *Frame, instr ssa.Instruction) cont {
 		if instr.Heap {
 			fr.env[instr] = &Ptr{Obj: m.newObj(t, m.zero(t), m.posOf(instr))}
 		} else {
-			// local: re-zero
-			p := fr.env[instr].(*Ptr)
-			p.Obj.V = m.zero(t)
+			// local: re-zero (frames of on-demand initialiser slices have no pre-allocated locals)
+			if p, ok := fr.env[instr].(*Ptr); ok {
+				p.Obj.V = m.zero(t)
+			} else {
+				fr.env[instr] = &Ptr{Obj: m.newObj(t, m.zero(t), "")}
+			}
 		}
 	case *ssa.MakeSlice:
 		ln := m.concretize(fr.get(instr.Len).(*Term), m.P.Cfg.MaxSlice, "make len")
@@ -446,9 +453,9 @@ func (m *Machine) visit(fr *Frame, instr ssa.Instruction) cont {
 	case *ssa.Field:
 		fr.env[instr] = fr.get(instr.X).(*StructV).F[instr.Field]
 	case *ssa.IndexAddr:
-		fr.env[instr] = m.indexAddr(fr.get(instr.X), fr.get(instr.Index).(*Term))
+		fr.env[instr] = m.indexAddr(fr.get(instr.X), m.index64(fr, instr.Index))
 	case *ssa.Index:
-		fr.env[instr] = m.indexVal(fr.get(instr.X), fr.get(instr.Index).(*Term), instr.Type())
+		fr.env[instr] = m.indexVal(fr.get(instr.X), m.index64(fr, instr.Index), instr.Type())
 	case *ssa.Lookup:
 		fr.env[instr] = m.lookup(instr, fr.get(instr.X), fr.get(instr.Index))
 	case *ssa.MapUpdate:
@@ -639,11 +646,24 @@ func (m *Machine) sliceFromValues(et types.Type, vals []Value) *SliceV {
 	return &SliceV{Arr: o, Off: 0, Len: len(vals), Cap: len(vals)}
 }
 
+// index64 widens an index operand to 64 bits according to the signedness of its type
+// (an 8-bit index compared against a length of 256 would otherwise wrap).
+func (m *Machine) index64(fr *Frame, v ssa.Value) *Term {
+	idx := fr.get(v).(*Term)
+	if idx.S.W >= 64 {
+		return idx
+	}
+	if isSigned(v.Type()) {
+		return m.tt.SExt(idx, 64)
+	}
+	return m.tt.ZExt(idx, 64)
+}
+
 func (m *Machine) indexAddr(x Value, idx *Term) Value {
 	switch x := x.(type) {
 	case *SliceV:
 		i := m.boundIndex(idx, x.Len)
-		return &Ptr{Obj: x.Arr, Path: []int{x.Off + i}}
+		return &Ptr{Obj: x.Arr, Path: x.elemPath(x.Off + i)}
 	case *Ptr: // *array
 		if x.Obj == nil {
 			m.goPanic("runtime error: invalid memory address or nil pointer dereference")
@@ -805,16 +825,15 @@ func (m *Machine) sliceOp(fr *Frame, instr *ssa.Slice) Value {
 		if x.Arr == nil {
 			return nilSlice
 		}
-		return &SliceV{Arr: x.Arr, Off: x.Off + lo, Len: hi - lo, Cap: mx - lo}
+		return &SliceV{Arr: x.Arr, Base: x.Base, Off: x.Off + lo, Len: hi - lo, Cap: mx - lo}
 	case *Ptr: // *array
 		if x.Obj == nil {
 			m.goPanic("runtime error: invalid memory address or nil pointer dereference")
 		}
-		if len(x.Path) != 0 {
-			// array embedded in a struct: slices need a top-level array object
-			panic(m.unsupported("slicing an array embedded in another object"))
+		arr, ok := m.peek(x).(*ArrayV)
+		if !ok {
+			panic(m.unsupported("Slice of pointer to %T", m.peek(x)))
 		}
-		arr := x.Obj.V.(*ArrayV)
 		n := len(arr.E)
 		lo := m.optInt(fr, instr.Low, 0, n, "slice low")
 		hi := m.optInt(fr, instr.High, n, n, "slice high")
@@ -822,7 +841,7 @@ func (m *Machine) sliceOp(fr *Frame, instr *ssa.Slice) Value {
 		if lo < 0 || hi < lo || mx < hi || mx > n {
 			m.goPanic("runtime error: slice bounds out of range")
 		}
-		return &SliceV{Arr: x.Obj, Off: lo, Len: hi - lo, Cap: mx - lo}
+		return &SliceV{Arr: x.Obj, Base: x.Path, Off: lo, Len: hi - lo, Cap: mx - lo}
 	}
 	panic(m.unsupported("Slice on %T", x))
 }
@@ -831,7 +850,7 @@ func (m *Machine) sliceElems(s *SliceV) []Value {
 	if s.Arr == nil {
 		return nil
 	}
-	return s.Arr.V.(*ArrayV).E[s.Off : s.Off+s.Len]
+	return s.backing().E[s.Off : s.Off+s.Len]
 }
 
 func (m *Machine) appendSlice(et types.Type, s *SliceV, vals []Value) *SliceV {
@@ -839,18 +858,18 @@ func (m *Machine) appendSlice(et types.Type, s *SliceV, vals []Value) *SliceV {
 		return s
 	}
 	if s.Arr != nil && s.Len+len(vals) <= s.Cap {
-		arr := s.Arr.V.(*ArrayV)
+		arr := s.backing()
 		for i, v := range vals {
 			arr.E[s.Off+s.Len+i] = copyVal(v)
 		}
-		return &SliceV{Arr: s.Arr, Off: s.Off, Len: s.Len + len(vals), Cap: s.Cap}
+		return &SliceV{Arr: s.Arr, Base: s.Base, Off: s.Off, Len: s.Len + len(vals), Cap: s.Cap}
 	}
 	nc := s.Cap * 2
 	if nc < s.Len+len(vals) {
 		nc = s.Len + len(vals)
 	}
 	ns := m.makeSlice(et, s.Len+len(vals), nc)
-	arr := ns.Arr.V.(*ArrayV)
+	arr := ns.backing()
 	for i, v := range m.sliceElems(s) {
 		arr.E[i] = copyVal(v)
 	}
